@@ -11,7 +11,10 @@ Two correspondence layers (DESIGN.md 5/C09):
    compared for EQUALITY with the Coq model (Model/Assembly14.v, runner commands 150-155 of
    Extract/RunAsm.v, run through the extracted driver) on the same labels.  For the symmetric
    classes two labellings are used: one with the symmetry the class assumes, and a raw one
-   (no symmetry) under which upper/lower mirroring and "last write wins" are visible.
+   (no symmetry) under which upper/lower mirroring and "last write wins" are visible.  Shells may be
+   convention subclasses (permuted Cartesian order, permuted / signed pure labels): the stub honours the
+   convention it is handed, the model gets each shell's own matrix (conv_T) - so a transformation that is
+   built for one shell and used for another shell of the same angular momentum gives other integers.
 2. Numeric, through the real public functions: the metamorphic laws of the property on the
    implementation itself (mixed == (+)T_s applied to all-Cartesian on every basis index;
    transform=T == T applied to every index of the untransformed result; custom component
@@ -32,7 +35,15 @@ RULE = ("labelled layer: every cartesian/spherical assignment of 1-4 shells (one
         "that all block sizes of a case are pairwise distinct, rectangular integer T, methods cartesian / spherical "
         "/ mix / lincomb, labellings 'sym' and 'raw'; numeric layer: random bases of 1-3 shells (l 0..3, M 1..2, "
         "dyadic inputs), every assignment, ten public functions with and without a rectangular transform, and "
-        "custom-convention shell subclasses (random component permutations, l<=3, and sign flips); a case is "
+        "custom-convention shell subclasses (random component permutations, l<=3, and sign flips); SAME-l streams "
+        "(tags 'lab-conv', 'conv-same-l'): for every base class and all four dispatch targets, 2-3 shells of ONE "
+        "angular momentum l>=1 carrying pairwise DIFFERENT conventions (default / permuted Cartesian order / permuted "
+        "and sign-flipped pure labels / both) inside one basis and, for the asymmetric class, across the two bases, "
+        "under all-spherical, all-Cartesian and mixed assignments - the integer stub of generate_transformation "
+        "honours the (cart, sph) it is handed and the model receives each shell's own matrix computed from the case "
+        "description; the numeric same-l stream runs every public function (asymmetric overlap: all-spherical on both "
+        "sides, same pure labels with another Cartesian order included) against the default-convention result permuted "
+        "and signed per shell; a case is "
         "non-trivial when some shell has l>=2 spherical (transform not a permutation) or M>1 or a transform is "
         "given; distinct by the hash of the case description")
 ASSUMPTIONS = [
